@@ -135,6 +135,7 @@ func responseFor(v primitive.ProtocolVersion, id int16, final bool, page int) *f
 
 func c09Ids(r *Run) {
 	const P = "C09"
+	r.LeaveCloseFamilyToC16 = true
 	T := r.T
 	Ns := []int{2, 1, 3, 4, 8, 64}
 	N := Ns[T.Draw("N", len(Ns))]
@@ -264,6 +265,10 @@ func c09Ids(r *Run) {
 	if !r.Drive() {
 		r.Violate(P, "liveness", "step-budget", "run did not quiesce within %d steps", r.StepBudget)
 		return
+	}
+	r.checkPanics()
+	if r.CloseFamilyPanics > 0 {
+		return // the concurrent close hit the Close protocol (C16's findings): nothing further is judged
 	}
 	// (2) refused, not blocked: every operation must have returned
 	for _, t := range tasks {
@@ -416,6 +421,7 @@ func init() {
 
 func c09Wire(r *Run) {
 	const P = "C09"
+	r.LeaveCloseFamilyToC16 = true
 	T := r.T
 	v := r.DrawVersion()
 	N := 1 + T.Draw("N", 6)
